@@ -623,6 +623,9 @@ func monitorC09(c fw.Case, outs []string) []string {
 func monitorC04(c fw.Case, outs []string) []string {
 	var fails []string
 	live := liveRelations(c)
+	clean := CleanHistory(c)
+	reqs := requests(c)
+	devRef := func(st *State) map[int]map[string]string { return deviceReference(reqs, st) }
 	for _, s := range drained(c, outs) {
 		if s.Head == "not-quiescent" {
 			continue
@@ -654,6 +657,21 @@ func monitorC04(c fw.Case, outs []string) []string {
 					if failed(pv2.Index) && elemPrefix(unhex(path), unhex(p2)) {
 						want[path] = av.Value
 						break
+					}
+				}
+			}
+			// second, independent reference (clean histories): the device holds the gNMI-sequential effect of
+			// the requests that were APPLIED on it, whatever the controller recorded as applied
+			if clean && !rolledBackAfterFailure(reqs, s, t) {
+				ref := devRef(s)[t]
+				for p, v := range ref {
+					if hv, ok := s.Dev[t][hx(p)]; !ok || hv != v {
+						fails = append(fails, fmt.Sprintf("converge: target %d device holds %q at %s, the requests applied on it leave %q there", t, unhex(hv), p, unhex(v)))
+					}
+				}
+				for hp, v := range s.Dev[t] {
+					if _, ok := ref[unhex(hp)]; !ok {
+						fails = append(fails, fmt.Sprintf("converge: target %d device holds %s=%s which no request applied on it left there", t, unhex(hp), unhex(v)))
 					}
 				}
 			}
@@ -945,4 +963,14 @@ func liveRelations(c fw.Case) map[int]bool {
 		}
 	}
 	return out
+}
+
+// rolledBackAfterFailure: not used for clean histories (they have no rollbacks); kept for profiles that mix both.
+func rolledBackAfterFailure(reqs []request, st *State, t int) bool {
+	for _, r := range reqs {
+		if r.rollback != 0 {
+			return true
+		}
+	}
+	return false
 }
